@@ -285,7 +285,12 @@ func (s Step) Coq() string {
 		}
 	}
 
-	return fmt.Sprintf("(os %s %s %s)", vf.CoqListOf(s.Calls, Call.Coq), vf.CoqBool(s.Err), vf.CoqList(known))
+	ctor := "os"
+	if s.Panic != "" {
+		ctor = "osx" // a recovered panic of the handler is part of the observation
+	}
+
+	return fmt.Sprintf("(%s %s %s %s)", ctor, vf.CoqListOf(s.Calls, Call.Coq), vf.CoqBool(s.Err), vf.CoqList(known))
 }
 
 func CoqInts(xs []int) string {
